@@ -839,6 +839,38 @@ def gen_directed(rng, tier):
                 c["sweep"] = True
                 c["with_ref"] = True
                 cases.append(c)
+    # broadcast_to (explicit, and implicit through element-wise operands) with broadcast axes strictly BETWEEN non-broadcast
+    # axes, >= 2 stored elements per prefix: the sorted= flag of the site must be False there
+    for shape, target in (((2, 3, 1, 4), (2, 3, 5, 4)), ((2, 1, 3, 4), (2, 5, 3, 4)), ((2, 1, 3, 1, 2), (2, 4, 3, 2, 2)),
+                          ((3, 1, 2), (3, 4, 2)), ((2, 3, 1, 4), (3, 2, 3, 5, 4)), ((1, 3, 1, 2), (2, 3, 3, 2)), ((2, 2, 1), (2, 2, 3))):
+        for fmt, ca in (("coo", None), ("gcxs", [0]), ("dok", None)) if tier != "quick" else (("coo", None), ("gcxs", [0])):
+            for rep_ in range(1 if tier == "quick" else 3):
+                x = np_.array([rng.choice([1, 2, 3, -1]) if rng.random() < 0.85 else 0 for _ in range(int(np_.prod(shape)))]).reshape(shape)
+                g = Gen(rng, wild=True)
+                g.narrow = 0.0
+                g.maxsize = 2000
+                g.add_spec(dense_spec(x.tolist(), 0, fmt, ca))
+                if g.try_step("broadcast_to", force_p={"shape": list(target)}, force_args=[0]):
+                    g.pool[-1]["ok"] = True
+                    last = len(g.pool) - 1
+                    v = g.pool[last]["val"]
+                    # what a consumer of the order would see
+                    g.try_step("getitem", force_p={"idx": [["e"], ["i", 1], ["s", None, None, None]]}, force_args=[last])
+                    g.try_step("reshape", force_p={"shape": [int(v.shape[0]), -1]}, force_args=[last])
+                    c = g.program()
+                    c["with_ref"] = True
+                    cases.append(c)
+                y = np_.array([rng.choice([1, 2, -2]) if rng.random() < 0.8 else 0 for _ in range(int(np_.prod(target)))]).reshape(target)
+                g = Gen(rng, wild=True)
+                g.narrow = 0.0
+                g.maxsize = 2000
+                g.add_spec(dense_spec(x.tolist(), 0, fmt, ca))
+                g.add_spec(dense_spec(y.tolist(), 0, "coo", None))
+                if g.try_step(rng.choice(["add", "multiply", "maximum"]), force_p={}, force_args=[0, 1]):
+                    c = g.program()
+                    c["sweep"] = True
+                    c["with_ref"] = True
+                    cases.append(c)
     canc = [[-3, 3, 0], [0, -1, -2], [2, -2, 0]]
     steps = [("sum", {"axis": 1, "keepdims": False}), ("sum", {"axis": None, "keepdims": False}), ("sum", {"axis": [0, 1], "keepdims": True}),
              ("nansum", {"axis": 1, "keepdims": False}), ("einsum_tr", {"s": "ij->i"}), ("einsum_tr", {"s": "ij->j"}),
